@@ -193,7 +193,10 @@ def read_var_def(line: str, var_type: str | None = None, fun_only: bool = False)
     else:
         trailing_line = line[len(var_type) :]
     var_type = var_type.upper()
-    trailing_line = trailing_line.split("!")[0]
+    # A `!` inside a character literal (e.g. a PARAMETER value) is not a comment
+    comm_ind = strip_strings(trailing_line, maintain_len=True).find("!")
+    if comm_ind >= 0:
+        trailing_line = trailing_line[:comm_ind]
     if len(trailing_line) == 0:
         return None
 
